@@ -11,6 +11,7 @@ from ..ctext.lexer import CInvalidC
 
 PROPERTY = "C01"
 LEVEL = "exploration"
+TECHNIQUE = 'property-based testing (Hypothesis): generated abstract networks (API, native-file and multi-format-file routes) rendered for four back-ends; exact polynomial oracle (mass-action law computed from the abstract network vs. parsed ydot text)'
 RULE = (
     "Hypothesis-generated abstract networks (0-12 reactions over 2-10 species; 1-3 reactants with repetition, "
     "0-5 products, catalysts, pseudo-reactants, duplicates, required-unreacting species, ice/grain/electron species, "
